@@ -53,6 +53,8 @@ pub struct Script {
     /// phase of the first tick after start
     pub tick_phase_ns: u64,
     pub vld_mode: u8,
+    /// offset of every index hash in this history (val::INDEX_BASE)
+    pub index_base: u64,
     pub steps: Vec<Step>,
     pub profile: String,
     /// model may rely on "nothing is ever evicted or rejected for capacity"
@@ -69,6 +71,7 @@ impl Script {
             "interval_ns": self.interval_ns,
             "tick_phase_ns": self.tick_phase_ns,
             "validator": self.vld_mode,
+            "index_base": self.index_base,
             "below_capacity": self.below_capacity,
             "steps": self.steps.iter().take(upto + 1).map(|s| s.short()).collect::<Vec<_>>(),
         })
@@ -161,6 +164,7 @@ pub fn run_script(flavor: Flavor, s: &Script) -> Trace {
     val::log_enable(false);
     let _ = val::take_log();
     val::VLD_MODE.store(s.vld_mode, Ordering::SeqCst);
+    val::INDEX_BASE.store(s.index_base, Ordering::SeqCst);
     clock::set(s.start_ns);
     crate::driver::seeded::set_seed(s.start_ns ^ (s.steps.len() as u64) << 32 ^ s.tick_phase_ns);
     observe::enable(true);
@@ -310,6 +314,7 @@ pub fn run_script(flavor: Flavor, s: &Script) -> Trace {
     }
     val::log_enable(false);
     observe::enable(false);
+    val::INDEX_BASE.store(0, Ordering::SeqCst);
     phase("idle");
     tr
 }
@@ -547,6 +552,7 @@ pub fn generate(p: &Profile, rng: &mut Rng, history_no: u64, item_size: usize) -
         interval_ns: if default_interval { None } else { Some(interval_ms * 1_000_000) },
         tick_phase_ns: rng.below(interval_ms * 1_000_000),
         vld_mode,
+        index_base: if history_no % 3 == 0 { 0 } else { (history_no * 7919) % 257 },
         steps,
         profile: p.name.into(),
         below_capacity: p.capacity != "evict",
